@@ -28,7 +28,7 @@ from common import COQ, REPO, cz, clist, cnat, cbool, copt
 
 LEVEL = "proof"
 THEOREMS = "Props/C03.v"
-EXTRA_TARGETS = ("Traj/Encode.vo", "Gen/TrajFlow.vo")
+EXTRA_TARGETS = ("Traj/Encode.vo", "Traj/FlowProofs.vo", "Gen/TrajFlow.vo")
 EXTS = ["_rmsd"]
 RULE = ("operation histories over {t[key] (int, negative int, slice incl. reversed/strided/clipped, index list/array, "
         "bool mask), slice(copy=False), join / + / join(list) / md.join each with discard_overlapping_frames off and on "
@@ -96,7 +96,9 @@ class FlowInterp:
                 return self.env[e.id]
             raise Untranslatable("unbound name %s" % e.id)
         if _is_self_attr(e, FIELD_ATTRS):
-            return ("FField", FIELD_ATTRS[e.attr])
+            return ("FField", "OSelf", FIELD_ATTRS[e.attr])
+        if isinstance(e, ast.Attribute) and isinstance(e.value, ast.Name) and e.value.id == "other" and e.attr in FIELD_ATTRS:
+            return ("FField", "OOther", FIELD_ATTRS[e.attr])
         if isinstance(e, ast.Subscript):
             base = self.expr(e.value)
             sl = e.slice
@@ -267,8 +269,10 @@ class FlowInterp:
 def coq_fexp(t):
     if len(t) == 1:
         return t[0]
-    if t[0] in ("FField", "FConcat"):
-        return "(%s %s)" % (t[0], t[1])
+    if t[0] == "FField":
+        return "(FField %s %s)" % (t[1], t[2])
+    if t[0] == "FConcat":
+        return "(FConcat %s)" % t[1]
     return "(%s %s)" % (t[0], coq_fexp(t[1]))
 
 
@@ -325,11 +329,120 @@ def extract_flows(src_text):
     return out
 
 
+def _assigned(node, owner="self"):
+    """[(attribute, value expr, via)] for `owner.attr = value` / `owner.attr -= value` statements inside node"""
+    out = []
+    for x in ast.walk(node):
+        if isinstance(x, ast.Assign):
+            for t in x.targets:
+                if isinstance(t, ast.Attribute) and isinstance(t.value, ast.Name) and t.value.id == owner:
+                    out.append((t.attr, x.value, "assign"))
+        elif isinstance(x, ast.AugAssign):
+            t = x.target
+            if isinstance(t, ast.Attribute) and isinstance(t.value, ast.Name) and t.value.id == owner:
+                out.append((t.attr, x.value, "augassign"))
+    return out
+
+
+def _binding(attr, value_term):
+    """self._xyz = v  ->  v ;  self.xyz = v (through the property)  ->  FSetter v"""
+    if attr == "_xyz":
+        return value_term
+    if attr == "xyz":
+        return ("FSetter", value_term)
+    raise Untranslatable("binding of %s" % attr)
+
+
+def extract_effects(cls):
+    """summaries of the in-place methods: how _xyz is (re)bound and what is assigned to _rmsd_traces"""
+    meth = {}
+    for n in cls.body:
+        if isinstance(n, ast.FunctionDef):
+            deco = [ast.unparse(d) for d in n.decorator_list]
+            key = n.name + (".setter" if any(d.endswith(".setter") for d in deco) else (".getter" if "property" in deco else ""))
+            meth[key] = n
+    eff = {}
+
+    def traces_term(assigns):
+        tr = [v for a, v, _ in assigns if a == "_rmsd_traces"]
+        if not tr:
+            return ("FKeep",)
+        if len(tr) > 1:
+            raise Untranslatable("several assignments to _rmsd_traces")
+        v = tr[0]
+        if isinstance(v, ast.Constant) and v.value is None:
+            return ("FNone",)
+        if isinstance(v, ast.Call) and ast.unparse(v.func).endswith("_center_inplace_atom_major") and len(v.args) == 1 \
+                and _is_self_attr(v.args[0], ("_xyz", "xyz")):
+            return ("FCentred",)
+        raise Untranslatable("value assigned to _rmsd_traces: " + ast.unparse(v)[:60])
+
+    def xyz_term(assigns, value=("FArg",)):
+        xs = [(a, v, how) for a, v, how in assigns if a in ("_xyz", "xyz")]
+        if not xs:
+            return ("FKeep",)
+        if len(xs) > 1:
+            raise Untranslatable("several bindings of xyz")
+        return _binding(xs[0][0], value)
+
+    # xyz setter: value = ensure_type(value, ...); self._xyz = value; self._rmsd_traces = None
+    st = meth["xyz.setter"]
+    a = _assigned(st)
+    ens = any(isinstance(x, ast.Call) and ast.unparse(x.func) == "ensure_type" for x in ast.walk(st))
+    if [x for x in a if x[0] == "xyz"]:
+        raise Untranslatable("xyz setter assigns the property")
+    eff["setter_xyz"] = xyz_term(a, ("FEnsure", ("FArg",)) if ens else ("FArg",))
+    eff["setter_traces"] = traces_term(a)
+    # atom_slice, `if inplace:` branch
+    ifs = [x for x in meth["atom_slice"].body if isinstance(x, ast.If) and isinstance(x.test, ast.Name) and x.test.id == "inplace"]
+    if len(ifs) != 1:
+        raise Untranslatable("atom_slice: `if inplace:` branch")
+    a = []
+    for stt in ifs[0].body:
+        a += _assigned(stt)
+    eff["aslice_xyz"] = xyz_term(a, ("FCopy", ("FAtoms", ("FField", "OSelf", "SXyz"))))
+    eff["aslice_traces"] = traces_term(a)
+    # center_coordinates: `if mass_weighted and ...: self.xyz -= ... else: self._rmsd_traces = _center_inplace(self._xyz)`
+    cc = meth["center_coordinates"]
+    ifs = [x for x in cc.body if isinstance(x, ast.If)]
+    if len(ifs) != 1 or "mass_weighted" not in ast.unparse(ifs[0].test) or not ifs[0].orelse:
+        raise Untranslatable("center_coordinates: branches")
+    a_mw, a_plain = [], []
+    for stt in ifs[0].body:
+        a_mw += _assigned(stt)
+    for stt in ifs[0].orelse:
+        a_plain += _assigned(stt)
+    if [x for x in a_mw if x[0] == "_rmsd_traces"] or [x for x in a_plain if x[0] in ("_xyz", "xyz")]:
+        raise Untranslatable("center_coordinates: unexpected assignment")
+    eff["center_traces"] = traces_term(a_plain)
+    eff["center_mw_xyz"] = xyz_term(a_mw)
+    # superpose: the result is bound once, at the end
+    a = _assigned(meth["superpose"])
+    if [x for x in a if x[0] == "_rmsd_traces"]:
+        raise Untranslatable("superpose assigns _rmsd_traces itself")
+    eff["superpose_xyz"] = xyz_term(a)
+    # remove_solvent delegates to atom_slice with the same inplace flag
+    rets = [x for x in ast.walk(meth["remove_solvent"]) if isinstance(x, ast.Return)]
+    eff["remove_solvent_delegates"] = (
+        len(rets) == 1 and isinstance(rets[0].value, ast.Call) and ast.unparse(rets[0].value.func) == "self.atom_slice"
+        and any(k.arg == "inplace" and isinstance(k.value, ast.Name) and k.value.id == "inplace" for k in rets[0].value.keywords)
+        and not _assigned(meth["remove_solvent"]))
+    # the time and unitcell setters leave coordinates and cache alone
+    def touches(names):
+        return any(a_ in ("_rmsd_traces", "_xyz", "xyz") for nm in names for a_, _v, _h in _assigned(meth[nm]))
+    eff["time_touches"] = touches(["time.setter"])
+    eff["cell_touches"] = touches(["unitcell_lengths.setter", "unitcell_angles.setter", "unitcell_vectors.setter"])
+    return eff
+
+
 def translate(ctx):
     path = os.path.join(REPO, "mdtraj", "core", "trajectory.py")
     try:
         with open(path) as fh:
-            flows = extract_flows(fh.read())
+            src_text = fh.read()
+        flows = extract_flows(src_text)
+        tree = ast.parse(src_text)
+        eff = extract_effects([n for n in tree.body if isinstance(n, ast.ClassDef) and n.name == "Trajectory"][0])
     except Exception as e:
         # outside the translator's grammar (e.g. after a refactoring): no stale term may stand in; the tie for this
         # run is the correspondence alone (main.py records 'translator: degraded')
@@ -338,27 +451,25 @@ def translate(ctx):
                                           "Definition translator_degraded := true.\n" % str(e).replace("*)", "* )")[:300])
         ctx.notes.pop("source_variant", None)
         raise
+    cb = lambda b: "true" if b else "false"   # noqa: E731
     text = ["(* GENERATED on every run by harness/props/C03.py:translate from mdtraj/core/trajectory.py -- do not edit.",
-            "   Field data-flow of Trajectory.slice / join / stack / atom_slice (term language: MD.Traj.Flow). *)",
+            "   Field data-flow of Trajectory.slice / join / stack / atom_slice and the cache effects of the in-place methods",
+            "   (term language and its semantics: MD.Traj.Flow; soundness of the checkers: MD.Traj.FlowProofs). *)",
             "Require Import MD.Traj.Model MD.Traj.Flow.", ""]
-    for k in ("slice", "join", "stack", "atom_slice", "atom_slice_inplace"):
+    for k in ("slice", "join", "stack", "atom_slice"):
         text.append("Definition %s_flow : flow := %s." % (k, flows[k]))
+    text.append("Definition inplace_effects : effects :=\n  mkEffects %s %s\n            %s %s\n            %s %s %s\n            %s %s %s." % (
+        coq_fexp(eff["setter_xyz"]), coq_fexp(eff["setter_traces"]), coq_fexp(eff["aslice_xyz"]), coq_fexp(eff["aslice_traces"]),
+        coq_fexp(eff["center_traces"]), coq_fexp(eff["center_mw_xyz"]), coq_fexp(eff["superpose_xyz"]),
+        cb(eff["remove_solvent_delegates"]), cb(eff["time_touches"]), cb(eff["cell_touches"])))
     text += ["",
-             "(* the extracted flows are flows the model implements, for some variant of the two recorded defects *)",
-             "Definition source_variant : option variant := variant_of_flows slice_flow atom_slice_inplace_flow.",
-             "Lemma source_flows_are_modelled :",
-             "  match source_variant with",
-             "  | Some v => flows_known slice_flow atom_slice_inplace_flow join_flow stack_flow atom_slice_flow v",
-             "  | None => false",
-             "  end = true.",
-             "Proof. vm_compute. reflexivity. Qed.", ""]
+             "(* each extracted term passes the checker, hence (FlowProofs.check_*_sound) denotes the model's operation *)"]
+    for k in ("slice", "join", "stack", "atom_slice"):
+        text += ["Lemma %s_flow_checks : check_%s %s_flow = true." % (k, k, k), "Proof. vm_compute. reflexivity. Qed."]
+    text += ["Lemma inplace_effects_check : check_effects inplace_effects = true.", "Proof. vm_compute. reflexivity. Qed.", ""]
     ctx.write_gen("Gen/TrajFlow.v", "\n".join(text))
     ctx.notes["translator"] = "ok"
-    # which variant the source text denotes (re-derived here only to cross-check it against the behaviour; the
-    # recognition itself is Lemma source_flows_are_modelled, checked by coqc)
-    d1_fixed = "FArr1" in flows["slice"]
-    d2_fixed = flows["atom_slice_inplace"].endswith("FNone")
-    ctx.notes["source_variant"] = {(True, True): 0, (False, True): 1, (True, False): 2, (False, False): 3}[(d1_fixed, d2_fixed)]
+    ctx.notes["source_variant"] = 0      # the checkers accept the repaired data-flow only
 
 
 # ----------------------------------------------------------------------------- generator
@@ -687,6 +798,23 @@ def overlap_history(rng, specs):
     return ops
 
 
+def bonded_history(rng, specs, length):
+    """histories on topologies with bonds and two-atom residues (sharing / identity part of the property: every Chain,
+    Residue, Atom and bonded-Atom object of a result must be new).  Topology.__eq__ then also depends on residues and
+    bonds, which the model does not carry: joins use check_topology=False, md.join only operands of one lineage."""
+    ops = gen_history(rng, specs, length)
+    out = []
+    for o in ops:
+        if o[0] == "join":
+            o = list(o) + [None] * (6 - len(o))
+            o[3] = False
+            o[4] = None
+        elif o[0] == "mdjoin":
+            o = ["mdjoin", [o[1][0]] * len(o[1])] + list(o[2:])
+        out.append(o)
+    return out
+
+
 def fixed_probes():
     """the historical witnesses and a few structural probes, always run first"""
     s3 = [[5, [[1, 2, 100], [4]], True, True], [3, [[1, 2, 100], [4]], True, True], [5, [[8, 9, 10, 11]], False, False]]
@@ -722,6 +850,10 @@ def fixed_probes():
     P.append((s3, [["slice", 0, ["slice", [0, 2, None]], True], ["slice", 0, ["slice", [1, 4, None]], True], ["center", 3, False],
                    ["center", 4, False], ["join", 3, [4], True, None, True], ["set_time_new", 4, 3], ["mdjoin", [3, 4], True],
                    ["slice", 0, ["list", []], True], ["join", 0, [7], True, None, True], ["join", 7, [0], True, None, True]]))
+    # md.join is a reduction: an empty operand in the middle raises IndexError at ITS pairwise step, before a later
+    # incompatible operand is looked at (a list join would have refused the incompatible one first)
+    P.append((s3, [["slice", 0, ["list", []], True], ["mdjoin", [0, 3, 2], True], ["mdjoin", [0, 2, 3], True], ["mdjoin", [0, 3, 2], False],
+                   ["join", 0, [3, 2], True, None, True], ["mdjoin", [3, 0, 1], True], ["mdjoin", [0, 1, 0, 1], True]]))
     return [{"specs": s, "ops": o, "stream": "probe"} for s, o in P]
 
 
@@ -739,6 +871,10 @@ def build_cases(ctx):
         specs = gen_specs(rng)
         specs[0][0] = rng.randint(3, 6)
         cases.append({"specs": specs, "ops": overlap_history(rng, specs), "stream": "overlap-join"})
+    for i in range(60 if quick else 500):
+        specs = gen_specs(rng)
+        cases.append({"specs": specs, "ops": bonded_history(rng, specs, rng.randint(2, 8)), "stream": "bonded-topology",
+                      "bonded": True})
     for L in ([1, 2] if quick else [1, 2, 3]):
         for ops in exhaustive_histories(L):
             cases.append({"specs": EXH_SPECS, "ops": ops, "stream": "exhaustive%d" % L})
@@ -1127,8 +1263,8 @@ def run_cases(ctx, cases, replaying=False):
     B = 150
     impl = []
     for i in range(0, len(cases), B):
-        res = ctx.run_impl("traj_impl.py", {"cases": [{"seed": c["seed"], "specs": c["specs"], "ops": c["ops"]}
-                                                       for c in cases[i:i + B]]})
+        res = ctx.run_impl("traj_impl.py", {"cases": [{"seed": c["seed"], "specs": c["specs"], "ops": c["ops"],
+                                                        "bonded": bool(c.get("bonded"))} for c in cases[i:i + B]]})
         impl.extend(res["cases"])
     enc, errs = coq_run_all(ctx, cases)
     if errs:
@@ -1188,6 +1324,8 @@ def run_cases(ctx, cases, replaying=False):
     # 2. the property, judged by the model-free oracles on the implementation
     for ci, (c, im, w) in enumerate(zip(cases, impl, worlds)):
         case = {"seed": c["seed"], "specs": c["specs"], "ops": c["ops"]}
+        if c.get("bonded"):
+            case["bonded"] = True
         ctx.count(case, nontrivial=nontrivial(c, im), bucket=c.get("stream", "replay"))
         for p in im["prop"]:
             op = c["ops"][p["step"]]
